@@ -759,6 +759,8 @@ def _run_program(ctx, prog, lb, plan, stats, judge_cases, judge_meta):
 # ------------------------------------------------------------------------------------------------
 # hand-written probes: constructs of valid IDL the seeded generator does not produce
 
+ARG_NAMES = ["err", "result", "args", "ret", "r", "f", "fctx", "fmt", "type", "range", "len", "error"]
+
 PROBES = {
     # the same exception type twice in a throws clause (directly and through a typedef): the processor's type switch
     # must take each Go type once (was: "duplicate case *E in type switch", repaired)
@@ -773,11 +775,10 @@ PROBES = {
                "service S {\n  i32 pick(1: Opt o)\n}\n",
         "calls": "default_from_constant"},
     # arguments named like identifiers the generator uses itself in the emitted client / processor functions
-    # (known finding: the emitted Go does not compile)
+    # (was a known finding: the emitted Go did not compile; repaired: such a parameter gets a trailing underscore)
     "arg_names_collide": {
-        "idl": "service S {\n" + ",\n".join("  string m%d(1: string %s)" % (i, n) for i, n in enumerate(
-            ["err", "result", "args", "ret", "r", "f", "fctx", "fmt"])) + "\n}\n",
-        "calls": False},
+        "idl": "service S {\n" + ",\n".join("  string m%d(1: string %s)" % (i, n) for i, n in enumerate(ARG_NAMES)) + "\n}\n",
+        "calls": "arg_names"},
 }
 
 
@@ -813,6 +814,21 @@ def run_probes(ctx, tag):
                     ctx.violation("C03 probe %s: Opt{d: 0.0} sent, the handler saw d = %s" % (name, seen[-1:]),
                                   {"probe": name, "idl": pr["idl"], "calls": calls, "seen": seen, "response": str(r)[:1200]},
                                   signature=sig)
+            elif pr["calls"] == "arg_names":
+                # every method is callable and its argument reaches the handler under whatever name the parameter got
+                calls = [{"method": "M%d" % i, "args": [("in-" + n).encode().hex()],
+                          "outcome": {"kind": "ret", "value": ("out-" + n).encode().hex()}} for i, n in enumerate(ARG_NAMES)]
+                for t in TRANSPORTS[:2]:
+                    r = lb.run([{"op": "c03_session", "service": pid + ".S", "transport": t, "proto": "binary", "calls": calls}])[0]
+                    got = r.get("calls", [])
+                    ok = len(got) == len(calls) and all(
+                        (g.get("client") or {}) == {"kind": "ret", "value": c["outcome"]["value"]} and
+                        len(g.get("handler") or []) == 1 and (g["handler"][0].get("args") or [None])[0] == c["args"][0]
+                        for g, c in zip(got, calls))
+                    if not ok:
+                        ctx.violation("C03 probe %s over %s: an argument or a result did not arrive" % (name, t),
+                                      {"probe": name, "idl": pr["idl"], "transport": t, "response": str(r)[:1500]})
+                        out[name] = "call failed"
             elif pr["calls"]:
                 why = b"because".hex()
                 calls = [{"method": "M", "args": [5], "outcome": {"kind": "declared", "exc": pid + ".E", "value": {"1": why}}},
